@@ -105,7 +105,6 @@ fn leaf(full_floats: bool) -> BoxedStrategy<J> {
         2 => (-999_999_999_999_999i64..=999_999_999_999_999, -22i8..=22).prop_map(|(m, e)| J::Fs(m, e)),
         ff => any::<u64>().prop_filter_map("finite", |b| if f64::from_bits(b).is_finite() { Some(J::Ff(b)) } else { None }),
         3 => key().prop_map(J::S),
-        1 => (prop_oneof![Just(33_000u32), Just(70_000), Just(300_000)], any::<u8>()).prop_map(|(n, s)| J::Big(n, s)),
     ]
     .boxed()
 }
@@ -120,8 +119,13 @@ pub fn object(full_floats: bool) -> impl Strategy<Value = J> {
         ]
     });
     prop_oneof![
-        2 => Just(J::O(vec![])),
-        8 => proptest::collection::vec((key(), inner), 0..6).prop_map(J::O),
+        8 => Just(J::O(vec![])),
+        32 => proptest::collection::vec((key(), inner.clone()), 0..6).prop_map(J::O),
+        // now and then one long string value: metadata larger than typical codec / stream buffers
+        1 => (proptest::collection::vec((key(), inner), 0..3), prop_oneof![3 => Just(33_000u32), 2 => Just(70_000), 1 => Just(300_000)], any::<u8>()).prop_map(|(mut o, n, s)| {
+            o.push(("blob".to_string(), J::Big(n, s)));
+            J::O(o)
+        }),
     ]
 }
 
